@@ -120,8 +120,8 @@ def run_shard(ctx, shard, acc):
             syms = symbol_subset(t, 5)
             for ops in itertools.chain(enum_histories(t, depth, 8 if ctx.quick else 12),
                                        enum_word_removals(t, 4, 100 if ctx.quick else 1000)):
-                if ops[-1][0] == 'to_string' or any(o[0] == 'to_string' for o in ops):
-                    continue
+                if any(o[0] in ('to_string', 'add_fwd') for o in ops):
+                    continue     # forward adds have no rebuilt twin; serialisations are not part of this property
                 if ops[-1][0] == 'add' and not any(o[0] in ('remove', 'dot_none') for o in ops):
                     continue
                 A, f = check(els[0], ops, syms if not ctx.quick else syms[:3])
